@@ -1317,3 +1317,8 @@ fn replay(_opts: &Opts, d: &Value, acc: &mut Acc) {
         acc.inconclusive.push("C20 replay file has neither source nor genome_hex".to_string());
     }
 }
+
+/// libFuzzer entry: one generated expression through to_sql
+pub fn fuzz_case(genome: &[u8], acc: &mut Acc) -> Vec<Failure> {
+    check_random(genome, acc)
+}
